@@ -1,11 +1,13 @@
 \* the repaired code: every pair and triple of lifecycle operations
 CONSTANTS
-  Running = {"AddClient", "AddClient2", "DelClient", "WhipClose", "SetLocked", "Shutdown", "GetDescription", "Stats", "Reload", "History"}
+  Running = {"AddClient", "AddClient2", "DelClient", "WhipClose", "SetLocked", "Shutdown", "GetDescription", "Stats", "Reload", "History", "HistoryReplay", "OpLeaves"}
   MaxConc = 3
   Fixed_F4 = TRUE
   Fixed_F5 = TRUE
   Fixed_F8 = TRUE
   Fixed_F18 = TRUE
   WhipConnected = TRUE
+  Async_Autokick = TRUE
+  History_Copy = TRUE
 SPECIFICATION Spec
 INVARIANTS NoRace WellFormed
